@@ -1,6 +1,6 @@
 #!/bin/sh
 # runs every registered check at the given tier (default quick), prints one line per check
-cd /verif
+cd "$(dirname "$0")/.."
 TIER="${1:-quick}"
 for C in $(/venv/bin/python -c "import json;print(' '.join(c['property_id'] for c in json.load(open('MANIFEST.json'))['checks']))"); do
   ./check "$C" --tier "$TIER" 2>&1 | grep -E "verdict=|^VIOLATION|^INCONCLUSIVE|^KNOWN" | cut -c1-220 | head -5
